@@ -12,6 +12,7 @@ and, inside pipelines, through the nslice stage of spec/FlowSem.tla.
 Liveness of input values (weak references) is recorded on long flows and checked by Trace_Flow
 against the retention each element documents (AliveBound).
 """
+import gc
 import random
 import threading
 import time
@@ -25,10 +26,17 @@ from ..util import CountingIter, exc_name
 INF = 1000
 TIMEOUTS = [0]
 STOPKINDS = ("close", "abandon", "throw")
+RUNAWAY = 2000      # an infinite input ends after that many pulls (the machine never pulls more than 4 * MaxOut + 8):
+#                     a pipeline that drains its input terminates and is reported, whoever swallows the watchdog
 # (as a Source, nested Sequences, first element of the Source: a callable / the iterator itself)
 # "reiterable": the first element is an object with __iter__ that is not its own iterator (a lazy reader)
 BUILDS = ((False, False, None), (True, False, "callable"), (False, True, None), (True, False, "iterable"),
           (True, False, "reiterable"))
+
+
+# wrong variants of spec/FlowSrc.tla and the property TLC must refute for each
+GUARDS = (("FlowSrc_wrong_buffer.cfg", "LazyEqDen"), ("FlowSrc_wrong_drain.cfg", "NoPullAfterStop"),
+          ("FlowSrc_wrong_drain_end.cfg", "NoPullAfterFinish"))
 
 
 class TooManyTimeouts(Exception):
@@ -54,11 +62,19 @@ class Ctx(dict):
 class Src(object):
     """Instrumented input: counts pulls, remembers how many of its values were alive at any pull."""
 
+    runaway = False
+
     def __init__(self, n):
         self.n = n
         self.pulled = 0
         self.refs = []
         self.peak = 0
+        self.hints = 0
+
+    @property
+    def flow(self):
+        """the object the pipeline is run on"""
+        return self
 
     def alive(self):
         return sum(1 for r in self.refs if r() is not None)
@@ -70,12 +86,63 @@ class Src(object):
         self.peak = max(self.peak, self.alive())
         if self.n is not None and self.pulled >= self.n:
             raise StopIteration
+        if self.n is None and self.pulled >= RUNAWAY:
+            self.runaway = True
+            raise StopIteration
         i = self.pulled
         self.pulled += 1
         c = Ctx()
         self.refs.append(weakref.ref(c))
         return (i, c)
     next = __next__
+
+
+class SizedSrc(Src):
+    """An input iterator that also answers __length_hint__ (PEP 424), as spec/FlowSrc.tla HintOf: the exact
+    number of values left, two too many, or one too few; an infinite one answers a large number."""
+    kind = "exact"
+
+    def __length_hint__(self):
+        self.hints += 1
+        if self.n is None:
+            return INF
+        left = self.n - self.pulled
+        if self.kind == "over":
+            return left + 2
+        if self.kind == "under":
+            return left - 1 if left > 1 else 0
+        return left
+
+
+class OverSrc(SizedSrc):
+    kind = "over"
+
+
+class UnderSrc(SizedSrc):
+    kind = "under"
+
+
+class ListSrc(object):
+    """iter(list): the pipeline runs on a genuine list_iterator; its position is read back from its own
+    __length_hint__ (exact for a list iterator), never by wrapping it."""
+    runaway = False
+    peak = 0
+    hints = 0
+
+    def __init__(self, n):
+        self.n = n
+        self.values = [(i, Ctx()) for i in range(n)]
+        self.flow = iter(self.values)
+
+    @property
+    def pulled(self):
+        return self.n - self.flow.__length_hint__()
+
+    def alive(self):
+        return 0
+
+
+SRC_CLASSES = {None: Src, "plain": Src, "exact": SizedSrc, "over": OverSrc, "under": UnderSrc, "list": ListSrc}
 
 
 class ReIterable(object):
@@ -177,19 +244,20 @@ def build(prog, src, as_source, nested, first="callable", lead=0):
 SOURCE_BUILDS = ((True, False, "callable"), (True, True, "callable"), (True, False, "iterable"), (True, False, "reiterable"))
 
 
-def observe(prog, n, kmax, as_source=False, nested=False, first="callable", stop=None, lead=0):
+def observe(prog, n, kmax, as_source=False, nested=False, first="callable", stop=None, lead=0, srckind=None):
     """Run the real pipeline; returns dict(out, pulls, pulled_at_build, pulled_at_run, end, ...).
     stop = (k, kind): the consumer stops after k results by close() / dropping the generator / throw()."""
-    src = Src(None if n == INF else n)
+    src = SRC_CLASSES[srckind](None if n == INF else n)
+    flow = src.flow
     res = {"out": [], "pulls": []}
     close_at, stopkind = stop if stop else (None, "close")
     with fl.quiet():
         try:
             # an implementation that reads its input here never returns on an infinite source
             with fl.time_limit(2):
-                seq = build(prog, src, as_source, nested, first, lead)
+                seq = build(prog, flow, as_source, nested, first, lead)
                 res["pulled_at_build"] = src.pulled
-                gen = seq() if as_source else seq.run(src)
+                gen = seq() if as_source else seq.run(flow)
                 res["pulled_at_run"] = src.pulled - res["pulled_at_build"]
         except fl.Watchdog:
             TIMEOUTS[0] += 1
@@ -224,6 +292,8 @@ def observe(prog, n, kmax, as_source=False, nested=False, first="callable", stop
             with fl.time_limit(4):
                 if stopkind == "abandon":
                     del gen         # dropping the last reference finalises the generator chain
+                    if srckind:
+                        gc.collect()
                 else:
                     if stopkind == "throw" and hasattr(gen, "throw"):
                         try:
@@ -248,6 +318,15 @@ def observe(prog, n, kmax, as_source=False, nested=False, first="callable", stop
             res["timeout"] = True
             TIMEOUTS[0] += 1
         res["pulled_by_stop"] = src.pulled - before
+    # released pipelines (closed, dropped and collected, or upstream of a stage that finished) pull nothing
+    gen = seq = None
+    if srckind:
+        gc.collect()    # (the scenarios of FlowSrc.tla; elsewhere reference counting releases the chain)
+    if src.runaway and not res.get("timeout"):
+        # the infinite input was drained (possibly inside a finaliser, where the watchdog is swallowed)
+        res["timeout"] = True
+        TIMEOUTS[0] += 1
+    res["hints_read"] = src.hints
     res["end"] = src.pulled
     res["alive"] = src.peak
     return res
@@ -257,62 +336,72 @@ def kinds(prog):
     return "+".join(fl.kind_name(st) for st in prog)
 
 
-def replay(ctx, rec, salt=0, all_stops=False):
+def replay(ctx, rec, salt=0, all_stops=False, light=False):
+    """light (records of spec/FlowSrc.tla: the same machine on every kind of input iterator): two of the ways of
+    building per record, one way of stopping per stop point k (both rotate over the records)."""
     prog, n = rec["prog"], rec["n"]
+    srckind = rec.get("src")
+    sfx = ":src=%s" % srckind if srckind else ""
     exp_out = [fl.norm_spec_val(v) for v in rec["out"]]
     pulls = rec["pulls"]
     kmax = len(exp_out) + (1 if rec["exhausted"] else 0)
     ok = True
     lead = rec.get("lead", 0)
     builds = SOURCE_BUILDS if lead else BUILDS
-    for as_source, nested, first in builds:
-        r = observe(prog, n, kmax, as_source, nested, first, lead=lead)
+    rot = n + len(prog) + salt + len(exp_out)
+    full = [builds[rot % len(builds)], builds[(rot + 2) % len(builds)]] if light else builds
+    for as_source, nested, first in full:
+        r = observe(prog, n, kmax, as_source, nested, first, lead=lead, srckind=srckind)
         ctx.evaluations += 1
         where = {"prog": prog, "n": n, "source": as_source, "nested": nested, "first": first,
-                 "elements_before_generator": lead}
+                 "elements_before_generator": lead, "input_iterator": srckind or "plain"}
         if r["pulled_at_build"] or r["pulled_at_run"]:
             ok = False
-            ctx.violation("work-before-demand:%s" % kinds(prog), dict(where, observed=r))
+            ctx.violation("work-before-demand:%s%s" % (kinds(prog), sfx), dict(where, observed=r))
         if r.get("timeout"):
             ok = False
-            ctx.violation("no-termination:%s" % kinds(prog), dict(where, expected_pulls=pulls))
+            ctx.violation("no-termination:%s%s" % (kinds(prog), sfx), dict(where, expected_pulls=pulls, observed=r))
             if TIMEOUTS[0] >= 3:
                 raise TooManyTimeouts()
             continue
         if r["out"] != exp_out or r.get("raised"):
             ok = False
-            ctx.violation("output:%s" % kinds(prog), dict(where, expected=exp_out, observed=r["out"],
+            ctx.violation("output:%s%s" % (kinds(prog), sfx), dict(where, expected=exp_out, observed=r["out"],
                                                           raised=r.get("raised")))
             continue
         over = [j for j in range(len(pulls)) if r["pulls"][j] > pulls[j]]
         if over:
             ok = False
-            ctx.violation("eager:%s" % kinds(prog),
+            ctx.violation("eager:%s%s" % (kinds(prog), sfx),
                           dict(where, delivery=over[0] + 1, spec_pulls=pulls, impl_pulls=r["pulls"]))
         if rec["exhausted"] and r.get("exhausted") and r["end"] > rec["endpos"]:
             # asked for a result that does not exist: the machine (islice consumes to its stop, Count one
             # look-ahead, Split one block) learns that from endpos values; reading further is not lazy
             ok = False
-            ctx.violation("eager-at-end:%s" % kinds(prog),
-                          dict(where, spec_end_pulls=rec["endpos"], impl_end_pulls=r["end"]))
+            ctx.violation("eager-at-end:%s%s" % (kinds(prog), sfx),
+                          dict(where, spec_end_pulls=rec["endpos"], impl_end_pulls=r["end"],
+                               released_by_a_finished_stage=rec.get("released")))
         if r.get("pulled_by_stop") or r.get("resumed_after_stop"):
             ok = False
-            ctx.violation("pull-on-close:%s" % kinds(prog), dict(where, observed=r))
+            ctx.violation("pull-on-close:%s%s" % (kinds(prog), sfx), dict(where, observed=r))
     # every consumer stop point k: same prefix, no more pulls than at delivery k; stopping pulls nothing
     # and the stopped pipeline yields nothing more.  The way of stopping and of building rotate with k.
     for k in range(0, len(exp_out)):
         for j in (range(3) if all_stops else [0]):
             stopkind = STOPKINDS[(k + n + salt + j) % 3]
             as_source, nested, first = builds[(k + 2 * n + salt + j) % len(builds)]
-            r = observe(prog, n, kmax, as_source, nested, first, stop=(k, stopkind), lead=lead)
+            r = observe(prog, n, kmax, as_source, nested, first, stop=(k, stopkind), lead=lead, srckind=srckind)
             ctx.evaluations += 1
             lim = pulls[k - 1] if k else 0
             if (r["out"] != exp_out[:k] or r["end"] > lim or r.get("raised") or r.get("timeout")
                     or r.get("resumed_after_stop") or r.get("raised_after_stop") or r.get("throw_swallowed")):
                 ok = False
-                ctx.violation("stop-at-k:%s%s" % (kinds(prog), "" if stopkind == "close" else ":" + stopkind),
+                ctx.violation("stop-at-k:%s%s%s" % (kinds(prog), "" if stopkind == "close" else ":" + stopkind, sfx),
                               {"prog": prog, "n": n, "k": k, "stop": stopkind, "allowed_pulls": lim,
-                               "source": as_source, "nested": nested, "elements_before_generator": lead, "observed": r})
+                               "source": as_source, "nested": nested, "elements_before_generator": lead,
+                               "input_iterator": srckind or "plain", "observed": r})
+                if r.get("timeout") and TIMEOUTS[0] >= 3:
+                    raise TooManyTimeouts()
     return ok
 
 
@@ -411,7 +500,7 @@ def run(ctx):
     machine = ("Ask", "StageNeed", "StageHave", "StageEof", "Source", "Deliver")
     ext = "Flow_c02_ext_thorough" if ctx.thorough else "Flow_c02_ext"
     w = max(2, ctx.nworkers // 2)
-    with ThreadPoolExecutor(max_workers=8) as pool:
+    with ThreadPoolExecutor(max_workers=12) as pool:
         jobs = {
             "mc": pool.submit(ctx.mc, "Flow", "Flow_c02_%s.cfg" % tag, coverage=True,
                               must_cover=machine + (() if ctx.thorough else ("Stop", "Abort"))),
@@ -422,9 +511,23 @@ def run(ctx):
             "export": pool.submit(ctx.export, "Flow", "Flow_c02_%s_export.cfg" % tag, min_records=500),
             "ext": pool.submit(ctx.export, "Flow", ext + "_export.cfg", min_records=500),
             "sexport": pool.submit(ctx.export, "Slice", "Slice_export.cfg", min_records=1000),
+            # the kind of input iterator (__length_hint__ exact / over / under, iter(list)) and release of the input
+            "mc_src": pool.submit(ctx.mc, "FlowSrc", "FlowSrc_%s.cfg" % tag, workers=w, coverage=True,
+                                  must_cover=("ReadHint",)),
+            "srcexport": pool.submit(ctx.export, "FlowSrc", "FlowSrc_%s_export.cfg" % tag, min_records=500),
         }
+        for cfg, _ in GUARDS:
+            jobs["guard:" + cfg] = pool.submit(ctx.mc, "FlowSrc", cfg, expect_violation="report", workers=2)
         res = {k: j.result() for k, j in jobs.items()}
+    # sensitivity guards: an adapter that buffers a sized flow, a Count that drains its input when released
+    for cfg, prop in GUARDS:
+        g = res["guard:" + cfg]
+        if g.violated != prop:
+            raise core.MachineryError("the FlowSrc model is insensitive: %s did not refute %s (%s)"
+                                      % (cfg, prop, g.violated))
     cpu = {"tlc_wall": round(time.time() - ctx.t0, 1)}
+    gc.collect()
+    gc.freeze()         # collections during the replays only look at the objects of the replays
     t_cpu = [time.process_time()]
 
     def lap(name):
@@ -444,6 +547,25 @@ def run(ctx):
     except TooManyTimeouts:
         return ctx.finish(rule="aborted after three non-terminating real runs (reported as violations)")
     lap("pipelines")
+    srcrecs = res["srcexport"]
+    dims = {}
+    try:
+        for rec in srcrecs:
+            replay(ctx, rec, salt=ctx.seed, light=True)
+            ctx.traces += 1
+            dims[rec["src"]] = dims.get(rec["src"], 0) + 1
+            if rec["released"]:
+                dims["released"] = dims.get("released", 0) + 1
+            if rec["prog"] and rec["n"]:
+                ctx.distinct.add(core.canon([rec["prog"], rec["n"], rec["src"]]))
+    except TooManyTimeouts:
+        return ctx.finish(rule="aborted after three non-terminating real runs (reported as violations)")
+    for d in ("exact", "over", "under", "list", "released"):
+        if not dims.get(d):
+            raise core.MachineryError("no FlowSrc scenario of kind %s" % d)
+    ctx.extra["input_iterator_scenarios"] = dims
+    ctx.sample({"spec_behaviour_sized_input": srcrecs[len(srcrecs) // 2]})
+    lap("input-kinds")
     ctx.sample({"spec_behaviour": res["export"][len(res["export"]) // 2]})
     ctx.sample({"spec_behaviour_extended_vocabulary": res["ext"][len(res["ext"]) // 2]})
     inf = [r for r in recs if r["n"] == INF and r["exhausted"]]
@@ -537,11 +659,13 @@ def run(ctx):
                 raise core.MachineryError("Trace_Flow does not bind liveness: corrupted %d accepted %d" % (len(long_) - 1, acc3))
             ctx.extra["binding_demo_liveness"] = ("record %d claiming %d input values alive at once is rejected "
                                                  "at index %d" % (len(long_) - 1, long_[-1]["alive"], acc3))
+    gc.unfreeze()
     return ctx.finish(
         rule="S2C: all streaming programs of the bounded models (vocabulary and extended vocabulary: Print, elements "
              "without data, negative Slices, Split empty / nested / bufsize None, 1, 1000) x finite/infinite sources, "
              "each as Sequence, Source tail (callable and iterator first element) and nested, plus every consumer stop "
-             "point k by close / drop / throw; negative-index Slice scenarios of "
+             "point k by close / drop+gc / throw; the programs of FlowSrc.tla on every kind of input iterator "
+             "(__length_hint__ exact / too large / too small, iter(list)) with the input observed after release; negative-index Slice scenarios of "
              "Slice.tla with pull counts, stop points and weak-reference liveness; C2S: random pipelines with pull "
              "vectors, long flows with liveness",
         exhaustive=True)
